@@ -229,3 +229,73 @@ Fixpoint Hb' (d o l : json) {struct d} : bool :=
   end.
 
 Definition Hb (d o l : json) : bool := self_wf d && Hb' d o l.
+
+(* condition (1) alone (what the property's own quantifier states: list maps
+   with unique keys); Hb adds the cross-list consistency (2) *)
+Fixpoint H1b' (d o l : json) {struct d} : bool :=
+  match d with
+  | JObj dm =>
+      let om := obj_or_nil o in
+      let lm := obj_or_nil l in
+      nodup_str (akeys dm) &&
+      (fix go (dm : amap) : bool :=
+         match dm with
+         | [] => true
+         | (k, dv) :: dm' => H1b' dv (jget k om) (jget k lm) && go dm'
+         end) dm
+  | JArr dl =>
+      let ol := arr_or_nil o in
+      let ll := arr_or_nil l in
+      match detect_key ol ll dl with
+      | None => true
+      | Some key =>
+          list_wf ol && list_wf ll && list_wf dl &&
+          (fix go (dl : list json) : bool :=
+             match dl with
+             | [] => true
+             | it :: dl' =>
+                 match item_key key it with
+                 | Some k => H1b' it (find_item_or_null key k ol) (find_item_or_null key k ll)
+                 | None => true
+                 end && go dl'
+             end) dl
+      end
+  | _ => true
+  end.
+Definition H1b (d o l : json) : bool := self_wf d && H1b' d o l.
+
+(* an explicit null in desired does not face an observed list map (there the
+   first apply leaves [] and the second null) *)
+Fixpoint null_okb (d o l : json) {struct d} : bool :=
+  match d with
+  | JObj dm =>
+      let om := obj_or_nil o in
+      let lm := obj_or_nil l in
+      (fix go (dm : amap) : bool :=
+         match dm with
+         | [] => true
+         | (k, dv) :: dm' => null_okb dv (jget k om) (jget k lm) && go dm'
+         end) dm
+  | JArr dl =>
+      let ol := arr_or_nil o in
+      let ll := arr_or_nil l in
+      match detect_key ol ll dl with
+      | None => true
+      | Some key =>
+          (fix go (dl : list json) : bool :=
+             match dl with
+             | [] => true
+             | it :: dl' =>
+                 match item_key key it with
+                 | Some k => null_okb it (find_item_or_null key k ol) (find_item_or_null key k ll)
+                 | None => true
+                 end && go dl'
+             end) dl
+      end
+  | JNull =>
+      match o with
+      | JArr ol => match detect_key ol (arr_or_nil l) [] with None => true | Some _ => false end
+      | _ => true
+      end
+  | _ => true
+  end.
